@@ -7,6 +7,8 @@ import (
 	"fmt"
 	"os"
 	"runtime"
+	"runtime/debug"
+	"runtime/pprof"
 	"strconv"
 	"strings"
 	"time"
@@ -35,6 +37,7 @@ func parseBounds(s string) map[string]int {
 }
 
 func Main(args []string) int {
+	debug.SetGCPercent(400)
 	if len(args) == 0 {
 		fmt.Fprintln(os.Stderr, "usage: verif run|check|replay|list ...")
 		return 2
@@ -84,7 +87,13 @@ func cmdRun(args []string) int {
 	workers := fs.Int("workers", runtime.NumCPU(), "parallel workers")
 	timeout := fs.Int("timeout", 10000, "per-query timeout ms")
 	expectPanic := fs.Bool("expect-panic", false, "")
+	cpuprof := fs.String("cpuprofile", "", "")
 	fs.Parse(args)
+	if *cpuprof != "" {
+		f, _ := os.Create(*cpuprof)
+		pprof.StartCPUProfile(f)
+		defer pprof.StopCPUProfile()
+	}
 	if fs.NArg() < 1 {
 		fmt.Fprintln(os.Stderr, "run <harness>")
 		return 2
